@@ -486,6 +486,11 @@ func lenTextAlphabet(f *rm.Field, o Opts, leaf int) []member {
 	if o.Over && max == 65535 {
 		out = append(out, member{desc: "len 65536", v: rm.Text(rolling(leaf, 65536)), heavy: true})
 		out = append(out, member{desc: "len 65537", v: rm.Text(rolling(leaf, 65537)), heavy: true})
+		mb := make([]byte, 0, 90000)
+		for i := 0; i < 30000; i++ {
+			mb = append(mb, 0xE6, 0x8B, 0x92)
+		}
+		out = append(out, member{desc: "30000 three-byte runes (90000 bytes)", v: rm.Text(mb), heavy: true})
 	}
 	for _, s := range [][]byte{{0}, {0xFF, 0xFE}, {0x80}, {' '}, {' ', ' '}, {'0'}} {
 		out = append(out, member{desc: fmt.Sprintf("%q", s), v: rm.Text(s)})
